@@ -910,10 +910,27 @@ Qed.
 (* For every history, the property checker (the one that is evaluated on the implementation's
    observations) finds nothing to object to in the model's own behaviour. *)
 Theorem checker_accepts_model i roles pr evs :
-  case_violations (mkCase i roles pr evs (run_obs pr init evs)) = [].
+  case_violations (mkCase i 0 roles pr evs (run_obs pr init evs)) = [].
 Proof.
-  unfold case_violations. cbn [probes Check_C15.evs obs].
+  unfold case_violations. cbn [c_mode N.eqb probes Check_C15.evs obs].
   rewrite (trace_clauses_model pr evs init abs_init wf_init) by (repeat split). reflexivity.
+Qed.
+
+(* concurrent runs: the final observation of the model passes the final-view clause *)
+Lemma abs_run_R l : forall s A, wf s -> R s A -> wf (run_from s l) /\ R (run_from s l) (abs_run s A l).
+Proof.
+  induction l as [|e l IH]; intros s A Hwf HR; [split; assumption|].
+  cbn [abs_run]. change (run_from s (e :: l)) with (run_from (fst (step s e)) l).
+  apply IH; auto using wf_step, R_step.
+Qed.
+Theorem checker_accepts_final i m roles pr evs : m <> 0 ->
+  case_violations (mkCase i m roles pr evs [final_obs pr evs]) = [].
+Proof.
+  intros Hm. unfold case_violations. cbn [c_mode probes Check_C15.evs obs].
+  destruct (N.eqb_spec m 0) as [E|_]; [contradiction|].
+  unfold final_clauses, final_obs.
+  destruct (abs_run_R evs init abs_init wf_init) as [Hwf HR]; [repeat split|].
+  fold (run evs) in Hwf, HR. rewrite (view_ok_model (run evs) _ pr [] Hwf HR). reflexivity.
 Qed.
 
 (* ================= facts about the regenerated constants ================= *)
@@ -971,19 +988,23 @@ Proof. apply inflight_origin. left; reflexivity. Qed.
 (* the checker is not trivially accepting: an observation in which the newcomer is sent its own
    record, a bidder's record, or a connected address is dialled, is flagged *)
 Example ex_checker_rejects :
-  case_violations (mkCase 0 [] [] [Connected exB1 exLk []; Connected exP1 exLk []]
+  case_violations (mkCase 0 0 [] [] [Connected exB1 exLk []; Connected exP1 exLk []]
      [mkObs [] [[]; []; [exB1]; []] [] [[]; [3]];
       mkObs [Announce exP1 [(1, bos "u1"); (3, bos "u3")]; Wire exP1 [(addr_bytes 1, bos "u1"); (addr_bytes 3, bos "u3")];
              Announce exB1 [(1, bos "u1")]; Wire exB1 [(addr_bytes 1, bos "u1")]] [[]; [exP1]; [exB1]; []] [] [[1]; [3]]])
   = ["announce:self"; "announce:bidder"]%string
-  /\ case_violations (mkCase 0 [] [] [Connected exP1 exLk []; Gossip exB1 true [(addr_bytes 1, bos "u1")]]
+  /\ case_violations (mkCase 0 0 [] [] [Connected exP1 exLk []; Gossip exB1 true [(addr_bytes 1, bos "u1")]]
      [mkObs [] [[]; [exP1]; []; []] [] [[1]; []]; mkObs [Dial (bos "u1")] [[]; [exP1]; []; []] [] [[1]; []]])
   = ["gossip:dialled-known"]%string
-  /\ case_violations (mkCase 0 [] [] [Connected exP1 exLk []; Disconnected exP1]
+  /\ case_violations (mkCase 0 0 [] [] [Connected exP1 exLk []; Disconnected exP1]
      [mkObs [] [[]; [exP1]; []; []] [] [[1]; []]; mkObs [] [[]; [exP1]; []; []] [] [[1]; []]])
   = ["view"]%string
   /\ (* the debug API keeps reporting a provider after its disconnect although GetPeers is right *)
-     case_violations (mkCase 0 [] [] [Connected exP1 exLk []; Disconnected exP1]
+     case_violations (mkCase 0 0 [] [] [Connected exP1 exLk []; Disconnected exP1]
      [mkObs [] [[]; [exP1]; []; []] [] [[1]; []]; mkObs [] [[]; []; []; []] [] [[1]; []]])
-  = ["view"]%string.
+  = ["view"]%string
+  /\ (* a concurrent run that got stuck, and one that ended in the wrong provider set *)
+     case_violations (mkCase 0 1 [] [] [Connected exP1 exLk []] []) = ["view:hang"]%string
+  /\ case_violations (mkCase 0 1 [] [] [Connected exP1 exLk []; Disconnected exP1]
+        [mkObs [] [[]; [exP1]; []; []] [] [[1]; []]]) = ["view"]%string.
 Proof. repeat split; reflexivity. Qed.
